@@ -86,6 +86,7 @@ type Lowerer struct {
 	pendingRangeKey  string         // source text of the expression ranged over by the loop being opened
 	nilMapFact       map[string]int // block:var -> statement count when the nil-map fact was last stated
 	itPoints         []acqPoint
+	chanLenTracked   bool // the function reads len(ch) of a channel: track it as a pseudo field (A-chanlen)
 	initializing     map[string]bool // objects being constructed (composite literal): not yet shared
 	topEnv           map[string]envEntry
 	topChain         []*Contract
@@ -1481,6 +1482,7 @@ func (l *Lowerer) trUnary(x *ast.UnaryExpr) (*Term, types.Type) {
 	case token.AND:
 		return l.addrOf(x)
 	case token.ARROW:
+		defer l.havocChanLen()
 		return l.recv(x.X, x)
 	}
 	l.unsupported(x, "unary "+x.Op.String())
